@@ -735,6 +735,50 @@ func (p *Program) compositeOf(fn *Func, x ast.Expr) *ast.CompositeLit {
 	return nil
 }
 
+// compositeOfIn is compositeOf that also reports the function whose scope the literal's field
+// expressions belong to (the caller, when the value arrived through a bound helper parameter).
+func (p *Program) compositeOfIn(fn *Func, x ast.Expr) (*ast.CompositeLit, *Func) {
+	for i := 0; i < 6 && x != nil; i++ {
+		switch v := ast.Unparen(x).(type) {
+		case *ast.CompositeLit:
+			return v, fn
+		case *ast.UnaryExpr:
+			if v.Op != token.AND {
+				return nil, nil
+			}
+			x = v.X
+		case *ast.Ident:
+			obj := fn.Info().Uses[v]
+			if obj == nil {
+				return nil, nil
+			}
+			if vr, isVar := obj.(*types.Var); isVar && isParamOf(fn, vr) {
+				moved := false
+				for f := fn; f != nil; f = f.Outer {
+					if k := paramIndex(f, vr); k >= 0 {
+						if f.bind != nil && f.bind.call != nil && k < len(f.bind.call.Args) {
+							fn, x, moved = f.bind.caller, f.bind.call.Args[k], true
+						}
+						break
+					}
+				}
+				if !moved {
+					return nil, nil
+				}
+				continue
+			}
+			ds, ok := fn.Defs().singleDef(obj)
+			if !ok || ds.kind != "assign" || ds.multi {
+				return nil, nil
+			}
+			x = ds.rhs
+		default:
+			return nil, nil
+		}
+	}
+	return nil, nil
+}
+
 // litField returns the value expression of a named field in a keyed composite literal.
 func litField(lit *ast.CompositeLit, name string) ast.Expr {
 	for _, el := range lit.Elts {
